@@ -50,6 +50,12 @@ func NewDiskWriter(ctx context.Context, dest string, opt DiskWriterOpt) (*DiskWr
 		return nil, errors.New("can't specify both sync and async data callbacks")
 	}
 
+	// dest may be a symlink to the directory; the final walk that restores
+	// directory times does not descend into a root that is a symlink
+	if resolved, err := filepath.EvalSymlinks(dest); err == nil {
+		dest = resolved
+	}
+
 	ctx, cancel := context.WithCancel(ctx)
 	eg, egCtx := errgroup.WithContext(ctx)
 
